@@ -219,6 +219,9 @@ func (c *CiscoDiscovery) LayerType() gopacket.LayerType {
 }
 
 func decodeCiscoDiscovery(data []byte, p gopacket.PacketBuilder) error {
+	if len(data) < 4 {
+		return errors.New("CiscoDiscovery packet too small")
+	}
 	c := &CiscoDiscovery{
 		Version:  data[0],
 		TTL:      data[1],
